@@ -15,6 +15,7 @@ TINY = {
     "T11": (11, 8, 1, 0, 1, 17, 1),      # a = p - 3, p = 3 mod 4, n > p
     "T13": (13, 0, 7, 7, 5, 7, 1),       # a = 0, p = 5 mod 8, n < p (x mod n matters)
     "T23": (23, 20, 15, 1, 6, 17, 1),    # a = p - 3, n < p
+    "T13r": (13, 7, 6, 1, 1, 11, 1),     # n < p and x = n-1, x = 1 are abscissas of points: ECDSA r = n-1 and r = 1 occur (C18)
     "TH2": (11, 1, 1, 0, 1, 7, 2),       # cofactor 2: has the point (2, 0) of order 2 (public-key validation only)
 }
 
@@ -232,6 +233,46 @@ def ossl_derive(priv_path, peer_path):
     if rc != 0 or not out:
         raise MachineryError("openssl pkeyutl -derive failed: %r" % err[-300:])
     return out
+
+
+# ------------------------------------------------------------------ deterministic interruption (error-path histories)
+class Interrupt(BaseException):
+    """private exception raised by the trace function below: stands for KeyboardInterrupt / a time-out raised from a signal
+    handler / MemoryError landing in the middle of a library call"""
+
+
+def interrupted(code, N, fn):
+    """Run fn() and raise Interrupt at the N-th 'line' event executed in frames of the code object `code` (N = 0: only
+    count).  Deterministic: no signals, no wall clock.  -> (was it interrupted, line events seen, other exception or None)"""
+    import sys
+    cnt = [0]
+
+    def local(frame, event, arg):
+        if event == "line":
+            cnt[0] += 1
+            if cnt[0] == N:
+                raise Interrupt()
+        return local
+
+    def glob(frame, event, arg):
+        return local if frame.f_code is code else None
+    old = sys.gettrace()
+    sys.settrace(glob)
+    try:
+        try:
+            fn()
+        except Interrupt:
+            return True, cnt[0], None
+        except Exception as e:
+            return False, cnt[0], e
+        return False, cnt[0], None
+    finally:
+        sys.settrace(old)
+
+
+def precompute_code():
+    from register_crypto_plugin.ecdsa.ellipticcurve import PointJacobi
+    return PointJacobi._maybe_precompute.__code__
 
 
 # ------------------------------------------------------------------ several trace validations side by side
